@@ -187,6 +187,28 @@ def _same(mon, got, ref, monitor, **details):
     mon.check(False, monitor, **det)
 
 
+def _hist_tensor(case, mon, B, T, V):
+    """The same history values handed over in different memory layouts: a fresh tensor, a row-sliced view
+    (contiguous, non-zero storage offset - what `tokens[1:]` is), a batch-narrowed view and a transposed view."""
+    import torch
+
+    base = torch.tensor(case["hist"], dtype=torch.long).reshape(B, T).t().contiguous()  # (T, B)
+    layout = case.get("hist_layout") or ["fresh", "row_offset", "col_narrow", "transposed", "fresh"][(3 * T + B + V) % 5]
+    if T == 0 or B == 0:
+        layout = "fresh"
+    mon.cls("hist_layout:" + layout)
+    if layout == "row_offset":
+        big = torch.cat([torch.full((2, B), max(V - 1, 0), dtype=torch.long), base, torch.zeros(1, B, dtype=torch.long)], 0)
+        return big[2:2 + T]
+    if layout == "col_narrow":
+        junk = torch.full((T, 1), max(V - 1, 0), dtype=torch.long)
+        big = torch.cat([junk, base, junk], 1)
+        return big[:, 1:1 + B]
+    if layout == "transposed":
+        return base.t().contiguous().t()
+    return base
+
+
 def _describe_table(mon, case, dicts):
     """Input classes that depend on the concrete table (counted for the floors)."""
     N = len(dicts)
@@ -279,7 +301,7 @@ def _drive_model(mon, case, dicts, label=""):
         else:
             lm = mon.lib("construct", LM, V, sos, arg)
     _describe_model(mon, lm, case, sizes)
-    hist = torch.tensor(case["hist"], dtype=torch.long).reshape(B, T).t().contiguous()  # (T, B)
+    hist = _hist_tensor(case, mon, B, T, V)  # (T, B), possibly a view into a larger tensor
     exp, nontrivial = _oracle_full(mon, user, case)
     det = dict(route=label)
 
